@@ -711,6 +711,21 @@ fn hosts_text(r: &mut Rng) -> String {
     s
 }
 
+/// a file of a configuration directory: a regular file, or (one time in three) a symbolic link to a file
+/// kept elsewhere - ConfigMap mounts, /etc on NixOS and sites-enabled layouts look like that
+fn place_in_dir(r: &mut Rng, root: &Path, d: &Path, fname: &str, content: &[u8]) {
+    if r.chance(1, 3) {
+        let store = root.join("store");
+        std::fs::create_dir_all(&store).unwrap();
+        let target = store.join(format!("{}-{}", d.file_name().unwrap().to_string_lossy(), fname));
+        std::fs::write(&target, content).unwrap();
+        if std::os::unix::fs::symlink(&target, d.join(fname)).is_ok() {
+            return;
+        }
+    }
+    std::fs::write(d.join(fname), content).unwrap();
+}
+
 pub fn run_config_load(r: &mut Rng, n: usize, out: &mut Out) {
     let rt = tokio::runtime::Builder::new_current_thread().enable_all().build().unwrap();
     let mut done = 0;
@@ -748,7 +763,7 @@ pub fn run_config_load(r: &mut Rng, n: usize, out: &mut Out) {
                 }
                 k => {
                     let d = &zdirs[k - 1];
-                    std::fs::write(d.join(&fname), &content).unwrap();
+                    place_in_dir(r, &dir, d, &fname, &content);
                     desc.push(format!("zd{}:{fname}={body}", k - 1));
                 }
             }
@@ -774,7 +789,7 @@ pub fn run_config_load(r: &mut Rng, n: usize, out: &mut Out) {
                 }
                 k => {
                     let d = &hdirs[k - 1];
-                    std::fs::write(d.join(&fname), &content).unwrap();
+                    place_in_dir(r, &dir, d, &fname, &content);
                     desc.push(format!("hd{}:{fname}={body}", k - 1));
                 }
             }
@@ -1243,6 +1258,171 @@ pub fn run_forward(r: &mut Rng, n: usize, out: &mut Out) {
         drop(server);
         drop(fwd);
         drop(decoy);
+        let _ = std::fs::remove_dir_all(&dir);
+    }
+}
+
+// ---------------------------------------------------------------------------------------------
+// reloads while the server is busy: a large previous configuration being dropped, a query stuck on
+// a slow upstream holding the configuration
+
+fn www_addr(server: &Server, id: u16, wait_ms: u64, name: &str) -> String {
+    let q = Question {
+        name: DomainName::from_dotted_string(name).unwrap(),
+        qtype: QueryType::Record(RecordType::A),
+        qclass: QueryClass::Record(RecordClass::IN),
+    };
+    let bytes = Message::from_question(id, q).to_octets().unwrap().to_vec();
+    match server.udp_once(&bytes, Duration::from_millis(wait_ms)) {
+        None => "noreply".into(),
+        Some(b) => match Message::from_octets(&b) {
+            Ok(m) => m
+                .answers
+                .iter()
+                .find_map(|rr| match rr.rtype_with_data {
+                    RecordTypeWithData::A { address } => Some(address.octets()[3].to_string()),
+                    _ => None,
+                })
+                .unwrap_or_else(|| format!("rcode{}", u8::from(m.header.rcode))),
+            Err(_) => "undecodable".into(),
+        },
+    }
+}
+
+/// C19 with the server busy.  Variant "storm": the previous configuration is large (a hosts blocklist of
+/// tens of thousands of names), a client asks continuously for a name both the old and the new files
+/// define while reloads happen - every answer is the old or the new address, never a failure.  Variant
+/// "stuck": forwarding mode, a query for an outside name hangs on a forwarder that never replies and
+/// keeps the configuration in use; the zone is edited and reloaded meanwhile - once the stuck query is
+/// over, answers reflect the new files.
+pub fn run_reload_live(r: &mut Rng, n: usize, out: &mut Out) {
+    for i in 0..n {
+        let dir = scratch("live");
+        let zdir = dir.join("zones");
+        std::fs::create_dir_all(&zdir).unwrap();
+        let zone_text = |last: u8| format!("$ORIGIN storm.test.\n@ IN SOA ns admin 1 2 3 4 60\nwww 300 IN A 10.0.0.{last}\n");
+        let mut cur = 1 + r.below(40) as u8;
+        std::fs::write(zdir.join("a.zone"), zone_text(cur)).unwrap();
+        if i % 2 == 0 {
+            // ---- storm
+            let mut hosts = String::new();
+            for k in 0..60_000u32 {
+                hosts.push_str(&format!("0.0.0.0 ad{k}.tracker{}.example\n", k % 977));
+            }
+            std::fs::write(dir.join("blocklist"), hosts).unwrap();
+            let args: Vec<String> = vec![
+                "--authoritative-only".into(),
+                "-Z".into(),
+                zdir.to_string_lossy().into_owned(),
+                "-a".into(),
+                dir.join("blocklist").to_string_lossy().into_owned(),
+            ];
+            let Some(server) = Server::start(&args) else {
+                out.case(&["server.start", "reload-live"], "failed");
+                continue;
+            };
+            let server = Arc::new(server);
+            let stop = Arc::new(std::sync::atomic::AtomicBool::new(false));
+            let seen: Arc<Mutex<Vec<String>>> = Arc::new(Mutex::new(Vec::new()));
+            let storm = {
+                let (server, stop, seen) = (server.clone(), stop.clone(), seen.clone());
+                std::thread::spawn(move || {
+                    let mut id = 1000u16;
+                    while !stop.load(std::sync::atomic::Ordering::SeqCst) {
+                        id = id.wrapping_add(1);
+                        let a = www_addr(&server, id, 1500, "www.storm.test.");
+                        seen.lock().unwrap().push(a);
+                    }
+                })
+            };
+            let mut allowed: Vec<String> = vec![cur.to_string()];
+            let mut verdicts: Vec<String> = Vec::new();
+            for _ in 0..3 {
+                cur = cur.wrapping_add(41) % 250 + 1;
+                allowed.push(cur.to_string());
+                std::fs::write(zdir.join("a.zone"), zone_text(cur)).unwrap();
+                let from = server.log_len();
+                server.sigusr1();
+                if server.wait_reload(from) != Some(true) {
+                    verdicts.push("fail:C19:valid-configuration-not-loaded".into());
+                }
+            }
+            std::thread::sleep(Duration::from_millis(100));
+            stop.store(true, std::sync::atomic::Ordering::SeqCst);
+            let _ = storm.join();
+            let seen = seen.lock().unwrap().clone();
+            let bad: Vec<&String> = seen.iter().filter(|a| !allowed.contains(a)).collect();
+            if let Some(b) = bad.first() {
+                verdicts.push(format!("fail:C19:answer-during-reload-from-neither-configuration:{b}"));
+            }
+            let fin = www_addr(&server, 7, 2000, "www.storm.test.");
+            if fin != cur.to_string() {
+                verdicts.push("fail:C19:later-answers-do-not-reflect-the-new-files".into());
+            }
+            out.case(
+                &["server.reload-live", "storm"],
+                &format!("{} queries={} bad={}", if verdicts.is_empty() { "ok".to_string() } else { verdicts.join(",") }, seen.len(), bad.len()),
+            );
+        } else {
+            // ---- stuck: a forwarder that never answers (UDP bound and silent; nothing listens on TCP)
+            let fport = free_port();
+            let silent = UdpSocket::bind(("127.0.0.1", fport)).ok();
+            let args: Vec<String> = vec![
+                "--forward-address".into(),
+                format!("127.0.0.1:{fport}"),
+                "-Z".into(),
+                zdir.to_string_lossy().into_owned(),
+            ];
+            let Some(server) = Server::start(&args) else {
+                out.case(&["server.start", "reload-live"], "failed");
+                continue;
+            };
+            let server = Arc::new(server);
+            let before = www_addr(&server, 1, 2000, "www.storm.test.");
+            // the stuck query: RD = 1 for an outside name
+            let stuck = {
+                let server = server.clone();
+                std::thread::spawn(move || {
+                    let mut q = Message::from_question(
+                        77,
+                        Question {
+                            name: DomainName::from_dotted_string("outside.invalid.").unwrap(),
+                            qtype: QueryType::Record(RecordType::A),
+                            qclass: QueryClass::Record(RecordClass::IN),
+                        },
+                    );
+                    q.header.recursion_desired = true;
+                    let _ = server.udp_once(&q.to_octets().unwrap(), Duration::from_secs(15));
+                })
+            };
+            std::thread::sleep(Duration::from_millis(300));
+            let newv = cur.wrapping_add(41) % 250 + 1;
+            std::fs::write(zdir.join("a.zone"), zone_text(newv)).unwrap();
+            server.sigusr1();
+            // once the stuck query is over (5 s UDP time-out, TCP refused) the new files must be served
+            let start = Instant::now();
+            let mut fin = String::new();
+            while start.elapsed() < Duration::from_secs(14) {
+                fin = www_addr(&server, 9, 1000, "www.storm.test.");
+                if fin == newv.to_string() {
+                    break;
+                }
+                std::thread::sleep(Duration::from_millis(250));
+            }
+            let _ = stuck.join();
+            drop(silent);
+            let mut verdicts: Vec<String> = Vec::new();
+            if before != cur.to_string() {
+                verdicts.push("fail:C19:initial-configuration-not-served".into());
+            }
+            if fin != newv.to_string() {
+                verdicts.push("fail:C19:later-answers-do-not-reflect-the-new-files".into());
+            }
+            out.case(
+                &["server.reload-live", "stuck"],
+                &format!("{} after={}ms", if verdicts.is_empty() { "ok".to_string() } else { verdicts.join(",") }, start.elapsed().as_millis() / 1000 * 1000),
+            );
+        }
         let _ = std::fs::remove_dir_all(&dir);
     }
 }
